@@ -24,9 +24,11 @@ P = {
         "n_quick": 1200, "n_thorough": 30000, "shard": 40,
         "findings": {1: "C06-F1", 2: "C06-F2", 3: "C06-F3", 4: "C06-F4", 5: "C06-F5", 6: "C06-F6"},
     }],
-    "rule": "histories of 2..25 rule-set creations / updates / deletions over 1..3 sources on the REAL repository (newRepository, "
-            "Add/Update/DeleteRuleSet, FindRule; real ruleImpl/routeImpl with SameAs/EqualTo and the real methodMatcher as route "
-            "conditions; rule hash = SHA-256 of the full canonical definition).  Rule sets are mutated version to version (definition "
+    "rule": "histories of 2..25 rule-set creations / updates / deletions over 1..3 sources through the REAL rule-set processor "
+            "(OnCreated/OnUpdated/OnDeleted with config.RuleSet values; 5 % of the operations with an unsupported version or a rule "
+            "the factory cannot create) into the REAL repository (newRepository, Add/Update/DeleteRuleSet, FindRule; real "
+            "ruleImpl/routeImpl with SameAs/EqualTo and the real methodMatcher as route conditions; rule hash = the real "
+            "config.Rule.Hash() of the whole rule).  Rule sets are mutated version to version (definition "
             "only / methods / flag / paths added-removed-replaced / rule added anywhere / removed / reordered / unchanged; cross-source "
             "collisions, invalid expressions, escapes, ':' '*' inside segments, varying wildcard names, duplicate paths and ids in "
             "dedicated profiles); after EVERY prefix 10..40 probe requests (instantiations of the expressions in use and near misses, "
@@ -46,8 +48,8 @@ P = {
                 "equality: the same unless two equal rule objects are loaded at once, which needs duplicate ids in a set (C06-F6) or "
                 "the creation of an existing set; on those histories (about 8 % of the generated ones) models and implementation are "
                 "not compared, only the implementation's own history-vs-fresh comparison is evaluated",
-                "ruleset_processor_impl.go (version check, rule factory loop) is not on the path of this stream: the driver hands "
-                "ruleImpl values to the repository directly",
+                "the rule factory behind the real rule-set processor is a stub that turns a config.Rule into a ruleImpl (id, source, "
+                "routes, methods, backtracking flag, hash = the real config.Rule.Hash()); rule_factory_impl.go is property C14",
                 "sortStaticChildren/priority left out of the transcription (only permutes children searched by unique first byte)"],
     "level_text": "Proof (kernel-checked, no axioms), by induction over ALL histories of rule-set creations/updates/deletions with an "
                   "invariant relating the known rules and the index to the specification's current rule sets: for the tree as it is "
@@ -69,8 +71,8 @@ P = {
                   "names); the pinned behaviour is documented by `_pinned_refuted` theorems.  Histories that create an already existing "
                   "rule set are outside the property (not judged).  Trusted: Coq kernel/vm_compute; the harness (generator, ruleImpl "
                   "construction, Gallina rendering).",
-    "assumptions": ["the driver constructs ruleImpl/routeImpl values directly (in-package): a rename of their fields breaks the driver, "
-                    "not the property",
+    "assumptions": ["the driver's stub factory constructs ruleImpl/routeImpl values directly (in-package): a rename of their fields breaks "
+                    "the driver, not the property",
                     "lookups are made without a default rule (FindRule returns ErrNoRuleFound = 'no rule')",
                     "lookups follow tree.go after the fix: commits e897fef (C02-F1), 88da16a (C03-F2), 16cf34b (C03-F5): check term "
                     "`check false`; `check true` is the pinned behaviour (a failed free-wildcard node consults its parent's flag)"],
